@@ -103,6 +103,15 @@ CHECKS = {
         note="Trusted: ideal AEAD; counters as mathematical integers (no wrap); the close-connection-on-failure half needs a running loop "
              "and is not decided (the induction does not depend on it for IP/BLE).",
         design="DESIGN.md section 5 C06"),
+    "C02": dict(
+        text="The real SrpClient and its byte-level use in perform_pair_setup_part2 run with integers as mathematical ints, big-endian "
+             "byte strings as abstract (value, width) encodings whose minimal width is a FREE integer (so every leading-zero situation "
+             "of A, B, S, salt and the digests is inside one query), SHA-512 and modexp as free functions; z3 proves A, K, M1 and the "
+             "accepted M2 equal the RFC 5054/HAP reference terms for every a, B, 16-byte salt, that a wrong code's proof differs and "
+             "that M5 is keyed from the 64-byte K. The real arithmetic is replayed per leading-zero class from mined cases.",
+        note="Trusted: hash/modexp as free functions (no-collision assumption), the 30-line reference in harness/c02.py, z3. Salts of "
+             "other lengths and short B values are outside.",
+        design="DESIGN.md section 5 C02"),
 }
 
 NOT_APPLICABLE = {
